@@ -26,6 +26,7 @@ let suites : (string * (Sexp.t -> Sexp.t -> Verdict.t)) list = [
   "runack", S_redis.run_runack;
   "rqueue", S_redis.run_rqueue;
   "crash", S_redis.run_crash;
+  "penc", S_penc.run_penc;
   "auth", S_auth.run_auth;
   "authwire", S_auth.run_authwire;
   "fedq", S_fed.run_fedq;
